@@ -193,6 +193,8 @@ pub enum Stmt {
     Replace(VRow),
     Upsert(VRow, usize, Val),
     CreateIndex(String, Vec<usize>, bool),
+    /// CREATE [UNIQUE] INDEX name ON t (cK(len)): prefix index on a string column
+    CreatePrefixIndex(String, usize, u64, bool),
     DropIndex(String),
     Begin,
     Commit,
@@ -230,6 +232,7 @@ impl Stmt {
                 n,
                 cols.iter().map(|c| format!("c{}", c)).collect::<Vec<_>>().join(", ")
             ),
+            Stmt::CreatePrefixIndex(n, c, len, u) => format!("CREATE {}INDEX {} ON t (c{}({}))", if *u { "UNIQUE " } else { "" }, n, c, len),
             Stmt::DropIndex(n) => format!("DROP INDEX {}", n),
             Stmt::Begin => "BEGIN".into(),
             Stmt::Commit => "COMMIT".into(),
@@ -256,6 +259,7 @@ impl Stmt {
             Stmt::Replace(_) => "replace",
             Stmt::Upsert(..) => "upsert",
             Stmt::CreateIndex(..) => "create_index",
+            Stmt::CreatePrefixIndex(..) => "create_prefix_index",
             Stmt::DropIndex(_) => "drop_index",
             Stmt::Begin => "begin",
             Stmt::Commit => "commit",
@@ -286,11 +290,13 @@ pub struct Obs {
     pub hidx: Vec<Vec<(String, usize)>>,
     /// upper-cased index name -> sorted (key, sorted positions)
     pub uidx: BTreeMap<String, Vec<(String, Vec<usize>)>>,
+    /// prefix indexes (keys truncated to the prefix length); not part of the Lean model
+    pub pidx: BTreeMap<String, Vec<(String, Vec<usize>)>>,
 }
 
 impl Obs {
     pub fn text(&self) -> String {
-        format!("rows {:?}\nhidx {:?}\nuidx {:?}", self.rows, self.hidx, self.uidx)
+        format!("rows {:?}\nhidx {:?}\nuidx {:?}\nprefix idx {:?}", self.rows, self.hidx, self.uidx, self.pidx)
     }
 }
 
@@ -331,7 +337,11 @@ pub fn observe(db: &Db, table: &str) -> Option<Result<Obs, String>> {
                     })
                     .collect();
                 v.sort();
-                o.uidx.insert(name.to_uppercase(), v);
+                if meta.columns.iter().any(|c| c.prefix_length.is_some()) {
+                    o.pidx.insert(name.to_uppercase(), v);
+                } else {
+                    o.uidx.insert(name.to_uppercase(), v);
+                }
             }
             Some(_) => return Some(Err(format!("index {} is disk backed", name))),
             None => return Some(Err(format!("index {} has metadata but no data", name))),
@@ -371,13 +381,26 @@ pub fn rebuild_from_scan(db: &Db, table: &str) -> Option<Obs> {
         if meta.table_name.to_uppercase() != table.to_uppercase() {
             continue;
         }
-        let cols: Vec<usize> = meta.columns.iter().filter_map(|c| t.schema.get_column_index(&c.column_name)).collect();
+        let cols: Vec<(usize, Option<u64>)> = meta.columns.iter().filter_map(|c| t.schema.get_column_index(&c.column_name).map(|i| (i, c.prefix_length))).collect();
+        let is_prefix = cols.iter().any(|(_, p)| p.is_some());
         let mut m: BTreeMap<String, Vec<usize>> = BTreeMap::new();
         for (p, r) in rows.iter().enumerate() {
-            let k: Vec<SqlValue> = cols.iter().map(|c| r[*c].clone()).collect();
+            // a prefix index keeps the first n CHARACTERS of a string value
+            let k: Vec<SqlValue> = cols
+                .iter()
+                .map(|(c, pre)| match (&r[*c], pre) {
+                    (SqlValue::Varchar(x), Some(n)) => SqlValue::Varchar(x.chars().take(*n as usize).collect()),
+                    (SqlValue::Character(x), Some(n)) => SqlValue::Character(x.chars().take(*n as usize).collect()),
+                    (v, _) => v.clone(),
+                })
+                .collect();
             m.entry(key_canon(&k)).or_default().push(p);
         }
-        o.uidx.insert(name.to_uppercase(), m.into_iter().collect());
+        if is_prefix {
+            o.pidx.insert(name.to_uppercase(), m.into_iter().collect());
+        } else {
+            o.uidx.insert(name.to_uppercase(), m.into_iter().collect());
+        }
     }
     Some(o)
 }
@@ -459,6 +482,7 @@ pub fn model_op(st: &Stmt, out: &Out, pre: &[VRow], post: &[VRow]) -> Result<Opt
             cols.iter().map(|c| c.to_string()).collect::<Vec<_>>().join(" "),
             if *u { 1 } else { 0 }
         ))),
+        Stmt::CreatePrefixIndex(..) => Ok(None),
         Stmt::DropIndex(n) => Ok(Some(format!("(didx {})", n.to_uppercase()))),
         Stmt::Insert(rows) => {
             if post.len() != pre.len() + rows.len() || post[..pre.len()] != *pre {
@@ -511,7 +535,15 @@ pub fn model_op(st: &Stmt, out: &Out, pre: &[VRow], post: &[VRow]) -> Result<Opt
             } else if post.len() == pre.len() {
                 let diff: Vec<usize> = (0..pre.len()).filter(|i| pre[*i] != post[*i]).collect();
                 match diff.len() {
-                    0 => Ok(None),
+                    // the conflicting row was rewritten with identical values: the engine still
+                    // records an Update (undo moves the row to the end) — tell the model which row
+                    0 => match (st, out) {
+                        (Stmt::Upsert(row, _, _), Out::Count(n)) if *n > 0 => match pre.iter().position(|r| r[0] == row[0]) {
+                            Some(i) => Ok(Some(format!("(ups {} {})", i, sx_row(&post[i])))),
+                            None => Err("upsert rewrote a row with identical values".into()),
+                        },
+                        _ => Ok(None),
+                    },
                     1 => Ok(Some(format!("(ups {} {})", diff[0], sx_row(&post[diff[0]])))),
                     _ => Err("upsert changed several rows".into()),
                 }
@@ -757,6 +789,11 @@ fn gen_index(r: &mut Rng, st: &mut GenState, s: &Schema) -> Stmt {
     }
     // a UNIQUE user-defined index now and then (the engine may refuse it over existing duplicates)
     let unique = r.chance(1, 5);
+    // a prefix index on a string column (values longer than the prefix exist: 'abcdef', 'dd', ...)
+    let strings: Vec<usize> = (1..s.ncols()).filter(|c| !s.int_col[*c] && matches!(s.kind(*c), Kind::Plain | Kind::Char(_) | Kind::Varchar3)).collect();
+    if !strings.is_empty() && r.chance(1, 4) {
+        return Stmt::CreatePrefixIndex(name, *r.pick(&strings), r.range(1, 2) as u64, unique);
+    }
     Stmt::CreateIndex(name, cols, unique)
 }
 
@@ -908,6 +945,10 @@ pub fn run_case_opts(c: &Case, model: &mut model::Model, rep: &mut Report, label
     let mut unique_clean: BTreeMap<String, bool> = BTreeMap::new();
     for (k, st) in c.stmts.iter().enumerate() {
         let pre = scan_vals(&db, TABLE);
+        let drops_prefix_index = match st {
+            Stmt::DropIndex(n) => db.db.get_index(n).map(|m| m.columns.iter().any(|c| c.prefix_length.is_some())).unwrap_or(false),
+            _ => false,
+        };
         let out = db.exec(&st.sql());
         rep.count(&format!("stmt_{}", st.kind()));
         if !out.is_ok() {
@@ -975,11 +1016,63 @@ pub fn run_case_opts(c: &Case, model: &mut model::Model, rep: &mut Report, label
         if oracle_failed {
             break;
         }
-        if tracking {
+        // ---- prefix indexes: an equality lookup (index-driven when the prefix index is chosen)
+        // returns what a filter of the scan returns ----
+        if !obs.pidx.is_empty() {
+            if let Some(t) = db.db.get_table(TABLE) {
+                let names: Vec<String> = t.schema.columns.iter().map(|c| c.name.clone()).collect();
+                let mut probes: Vec<(String, String, usize)> = vec![];
+                let prefixed: std::collections::BTreeSet<String> = db
+                    .db
+                    .list_indexes()
+                    .iter()
+                    .filter_map(|i| db.db.get_index(i))
+                    .flat_map(|m| m.columns.iter().filter(|c| c.prefix_length.is_some()).map(|c| c.column_name.to_uppercase()).collect::<Vec<_>>())
+                    .collect();
+                for (ci, name) in names.iter().enumerate() {
+                    if !prefixed.contains(&name.to_uppercase()) {
+                        continue;
+                    }
+                    let mut seen = std::collections::BTreeSet::new();
+                    for r in post.iter() {
+                        if let Val::Str(x) = &r[ci] {
+                            if !x.contains('\'') && seen.insert(x.clone()) && seen.len() <= 3 {
+                                let want = post.iter().filter(|q| q[ci] == r[ci]).count();
+                                probes.push((name.clone(), x.clone(), want));
+                            }
+                        }
+                    }
+                }
+                let keep = db.keep_log;
+                db.keep_log = false;
+                for (name, x, want) in probes {
+                    let q = db.exec(&format!("SELECT * FROM t WHERE {} = '{}'", name, x));
+                    if let Some(rows) = q.rows() {
+                        if rows.len() != want {
+                            rep.fail(
+                                FailKind::Oracle,
+                                None,
+                                "an equality lookup on a column with a prefix index disagrees with the stored rows",
+                                &format!("{}-- SELECT * FROM t WHERE {} = '{}' => {} rows, the table holds {}\n{}", script(c, k + 1), name, x, rows.len(), want, obs.text()),
+                            );
+                            oracle_failed = true;
+                            break;
+                        }
+                    }
+                }
+                db.keep_log = keep;
+                if oracle_failed {
+                    break;
+                }
+            }
+        }
+        if tracking && !drops_prefix_index {
             match model_op(st, &out, &pre, &post) {
                 Ok(Some(op)) => {
                     ops.push(op);
-                    expected.push((k, obs, out.is_ok(), st.is_txn_op()));
+                    let mut modelled = obs;
+                    modelled.pidx.clear();
+                    expected.push((k, modelled, out.is_ok(), st.is_txn_op()));
                 }
                 Ok(None) => {}
                 Err(why) => {
